@@ -1,7 +1,7 @@
 (* Mem/C16Check.v -- per-case checker of property C16, evaluated in the kernel by the case files:
    fst = tie (model = observed), snd = oracle (observed satisfies the specification of BackingSpec.v;
    the oracle never calls the model). *)
-From Coq Require Import ZArith List Bool NArith.
+From Coq Require Import ZArith List Bool NArith String Ascii.
 From Falcon Require Import Base.Res IL.Const Mem.Backing Mem.BackingSpec.
 Import ListNotations.
 Local Open Scope Z_scope.
@@ -24,14 +24,57 @@ Fixpoint list_eqb {A} (e : A -> A -> bool) (x y : list A) : bool :=
   | _, _ => false
   end.
 
-Inductive op := OWrite (a : Z) (d : list Z) (p : Z) | OSet32 (a v : Z).
+(* ---- compact text encoding of the case files (hex strings parse an order of magnitude faster
+   than list literals): bytes = 2 hex digits, observations = fixed-width tokens *)
+Definition nib_of_ascii (c : ascii) : Z :=
+  let n := Z.of_N (N_of_ascii c) in if n <? 58 then n - 48 else n - 87.
+Definition ascii_of_nib (n : Z) : ascii := ascii_of_N (Z.to_N (if n <? 10 then n + 48 else n + 87)).
 
-(* be, history, result of each operation (history ends at the first panic), sections() afterwards
-   (None when the history panicked), sweep base, observed get8 / permissions / get32 / get(_, gbits) at
-   lo, lo+1, ..., and extra (address, bits, get result) probes *)
+Fixpoint bytes_of_hex (s : string) : list Z :=
+  match s with
+  | String a (String b t) => (nib_of_ascii a * 16 + nib_of_ascii b) :: bytes_of_hex t
+  | _ => []
+  end.
+
+(* w hex digits of v, most significant first *)
+Fixpoint hex_acc (w : nat) (v : Z) (acc : string) : string :=
+  match w with O => acc | S w' => hex_acc w' (v / 16) (String (ascii_of_nib (v mod 16)) acc) end.
+Fixpoint rep (w : nat) (c : ascii) : string := match w with O => EmptyString | S w' => String c (rep w' c) end.
+
+(* token of width w for an observation *)
+Definition tok (w : nat) (o : ob) : string :=
+  match o with
+  | V v => hex_acc w v EmptyString
+  | W bits v => if Z.of_nat w * 4 =? bits then hex_acc w v EmptyString else rep w "X"%char
+  | U => rep w "U"%char
+  | PA => rep w "P"%char
+  | ER => rep w "E"%char
+  end.
+
+Fixpoint take (w : nat) (s : string) : string :=
+  match w, s with S w', String c t => String c (take w' t) | _, _ => EmptyString end.
+Fixpoint drop (w : nat) (s : string) : string :=
+  match w, s with S w', String _ t => drop w' t | _, _ => s end.
+(* the tokens of width w (w >= 1) of s *)
+Fixpoint tokens_fuel (fuel w : nat) (s : string) : list string :=
+  match fuel, s with
+  | S f, String _ _ => take w s :: tokens_fuel f w (drop w s)
+  | _, _ => []
+  end.
+Definition tokens (w : nat) (s : string) : list string := tokens_fuel (String.length s) (Nat.max w 1) s.
+
+Inductive op := OWrite (a : Z) (d : list Z) (p : Z) | OSet32 (a v : Z).
+Inductive xop := XW (a : Z) (hex : string) (p : Z) | XS (a v : Z).
+Definition op_of (x : xop) : op := match x with XW a h p => OWrite a (bytes_of_hex h) p | XS a v => OSet32 a v end.
+
+(* big-endian flag; history; one char per operation ("k" Ok, "e" Err, "p" panic -- the history ends there);
+   sections() afterwards as (address, hex data, permissions), None when the history panicked;
+   sweep base lo with get8 tokens (2 chars) and permissions tokens (1 char) at lo, lo+1, ...;
+   second sweep base lo2 with get32 tokens (8 chars) and get(_, gbits) tokens (gbits/4 chars);
+   extra probes (address, bits, token of max(1, bits/4) chars) *)
 Inductive case :=
-| K (be : bool) (ops : list op) (ores : list ob) (layout : option (sections Z)) (lo : Z)
-    (g8 pm g32 : list ob) (gbits : Z) (gs : list ob) (gx : list (Z * Z * ob)).
+| K (be : bool) (xops : list xop) (ores : string) (layout : option (list (Z * string * Z))) (lo : Z)
+    (g8 pm : string) (lo2 : Z) (g32 : string) (gbits : Z) (gs : string) (gx : list (Z * Z * string)).
 
 (* ------------------------------------------------------------------ model side *)
 
@@ -46,37 +89,44 @@ Definition do_op (be : bool) (s : sections Z) (o : op) : res (sections Z) :=
   | OSet32 a v => set32 be s a v
   end.
 
-Fixpoint run (be : bool) (s : sections Z) (ops : list op) : list ob * option (sections Z) :=
+Fixpoint run (be : bool) (s : sections Z) (ops : list op) : string * option (sections Z) :=
   match ops with
-  | [] => ([], Some s)
+  | [] => (EmptyString, Some s)
   | o :: t =>
       match do_op be s o with
-      | Ok s' => let r := run be s' t in (V 0 :: fst r, snd r)
-      | Err _ => let r := run be s t in (ER :: fst r, snd r)
-      | Panic => ([PA], None)
+      | Ok s' => let r := run be s' t in (String "k"%char (fst r), snd r)
+      | Err _ => let r := run be s t in (String "e"%char (fst r), snd r)
+      | Panic => ("p"%string, None)
       end
   end.
 
-Fixpoint sweep (f : Z -> ob) (x : Z) (k : nat) : list ob :=
-  match k with O => [] | S k' => f x :: sweep f (x + 1) k' end.
+Fixpoint sweep (f : Z -> string) (x : Z) (k : nat) : string :=
+  match k with O => EmptyString | S k' => (f x ++ sweep f (x + 1) k')%string end.
 
 Definition sec_eqb (x y : Z * section Z) : bool :=
   (fst x =? fst y) && list_eqb Z.eqb (fst (snd x)) (fst (snd y)) && (snd (snd x) =? snd (snd y)).
+Definition layout_of (l : list (Z * string * Z)) : sections Z :=
+  map (fun q => (fst (fst q), (bytes_of_hex (snd (fst q)), snd q))) l.
+
+Definition wbits (bits : Z) : nat := Nat.max 1 (Z.to_nat (bits / 4)).
+Definition ntok (w : nat) (s : string) : nat := Nat.div (String.length s) w.
 
 Definition tie (k : case) : bool :=
   match k with
-  | K be ops ores layout lo g8 pm g32 gbits gs gx =>
-      let r := run be [] ops in
-      list_eqb ob_eqb (fst r) ores &&
+  | K be xops ores layout lo g8 pm lo2 g32 gbits gs gx =>
+      let r := run be [] (map op_of xops) in
+      String.eqb (fst r) ores &&
       match snd r, layout with
-      | None, None => match g8, pm, g32, gs, gx with [], [], [], [], [] => true | _, _, _, _, _ => false end
+      | None, None =>
+          String.eqb g8 EmptyString && String.eqb pm EmptyString && String.eqb g32 EmptyString && String.eqb gs EmptyString
+          && match gx with [] => true | _ => false end
       | Some s, Some l =>
-          list_eqb sec_eqb s l &&
-          list_eqb ob_eqb (sweep (fun x => ob_z (get8 s x)) lo (length g8)) g8 &&
-          list_eqb ob_eqb (sweep (fun x => ob_z (permissions s x)) lo (length pm)) pm &&
-          list_eqb ob_eqb (sweep (fun x => ob_z (get32 be s x)) lo (length g32)) g32 &&
-          list_eqb ob_eqb (sweep (fun x => ob_c (get be s x gbits)) lo (length gs)) gs &&
-          forallb (fun q => ob_eqb (ob_c (get be s (fst (fst q)) (snd (fst q)))) (snd q)) gx
+          list_eqb sec_eqb s (layout_of l) &&
+          String.eqb (sweep (fun x => tok 2 (ob_z (get8 s x))) lo (ntok 2 g8)) g8 &&
+          String.eqb (sweep (fun x => tok 1 (ob_z (permissions s x))) lo (ntok 1 pm)) pm &&
+          String.eqb (sweep (fun x => tok 8 (ob_z (get32 be s x))) lo2 (ntok 8 g32)) g32 &&
+          String.eqb (sweep (fun x => tok (wbits gbits) (ob_c (get be s x gbits))) lo2 (ntok (wbits gbits) gs)) gs &&
+          forallb (fun q => String.eqb (tok (wbits (snd (fst q))) (ob_c (get be s (fst (fst q)) (snd (fst q))))) (snd q)) gx
       | _, _ => false
       end
   end.
@@ -94,67 +144,62 @@ Definition same_region (m : smap) (a : Z) : bool :=
   end.
 
 (* regions whose exclusive end is not a u64 are outside the property's domain *)
-Definition wraps (a : Z) (d : list Z) : bool := negb ((0 <=? a) && (a + Z.of_nat (length d) <? 18446744073709551616)).
+Definition wraps (a : Z) (d : list Z) : bool := negb ((0 <=? a) && (a + Z.of_nat (List.length d) <? 18446744073709551616)).
 
 Inductive verdict := Bad | Silent | Good (m : smap).
 
-Fixpoint orc_ops (be : bool) (m : smap) (i : nat) (ops : list op) (ores : list ob) : verdict :=
+Fixpoint orc_ops (be : bool) (m : smap) (i : nat) (ops : list op) (ores : string) : verdict :=
   match ops, ores with
-  | [], [] => Good m
-  | OWrite a d p :: t, r :: rt =>
+  | [], EmptyString => Good m
+  | OWrite a d p :: t, String r rt =>
       if wraps a d then Silent
-      else match r with
-           | V 0 => orc_ops be (overwrite m a d (p, i)) (S i) t rt
-           | _ => Bad                                  (* a region write succeeds *)
-           end
-  | OSet32 a v :: t, r :: rt =>
+      else if Ascii.eqb r "k"%char then orc_ops be (overwrite m a d (p, i)) (S i) t rt
+           else Bad                                    (* a region write succeeds *)
+  | OSet32 a v :: t, String r rt =>
       if same_region m a then
-        match r with
-        | V 0 => orc_ops be (write32 be m a v) (S i) t rt
-        | _ => Bad                                     (* a 32-bit write inside one region succeeds *)
-        end
+        if Ascii.eqb r "k"%char then orc_ops be (write32 be m a v) (S i) t rt
+        else Bad                                       (* a 32-bit write inside one region succeeds *)
       else
-        match r with
-        | ER => orc_ops be m (S i) t rt                (* refused: nothing altered *)
-        | _ => Silent                                  (* the property does not say what happens *)
-        end
+        if Ascii.eqb r "e"%char then orc_ops be m (S i) t rt   (* refused: nothing altered *)
+        else Silent                                    (* the property does not say what happens *)
   | _, _ => Bad
   end.
 
 Fixpoint disjoint_from (lo : Z) (l : sections Z) : bool :=
   match l with
   | [] => true
-  | (a, (d, _)) :: t => (lo <=? a) && disjoint_from (a + Z.of_nat (length d)) t
+  | (a, (d, _)) :: t => (lo <=? a) && disjoint_from (a + Z.of_nat (List.length d)) t
   end.
 
 Definition exp8 (m : smap) (x : Z) : ob := match read8 m x with Some b => V b | None => U end.
 Definition expp (m : smap) (x : Z) : ob := match tag_at m x with Some (p, _) => V p | None => U end.
-Definition ok32 (be : bool) (m : smap) (x : Z) (o : ob) : bool :=
-  if same_region m x then match read32 be m x with Some v => ob_eqb o (V v) | None => false end
-  else true.
-Definition okget (be : bool) (m : smap) (x bits : Z) (o : ob) : bool :=
-  if (bits mod 8 =? 0) && (0 <? bits) then
-    ob_eqb o (match read be m x bits with Some c => W (cbits c) (cval c) | None => U end)
-  else true.
 
-Fixpoint sweep_ok (f : Z -> ob -> bool) (x : Z) (l : list ob) : bool :=
+Fixpoint sweep_ok (f : Z -> string -> bool) (x : Z) (l : list string) : bool :=
   match l with [] => true | o :: t => f x o && sweep_ok f (x + 1) t end.
+
+Definition ok32 (be : bool) (m : smap) (x : Z) (o : string) : bool :=
+  if same_region m x then match read32 be m x with Some v => String.eqb o (tok 8 (V v)) | None => false end
+  else true.
+Definition okget (be : bool) (m : smap) (x bits : Z) (o : string) : bool :=
+  if (bits mod 8 =? 0) && (0 <? bits) then
+    String.eqb o (tok (wbits bits) (match read be m x bits with Some c => W (cbits c) (cval c) | None => U end))
+  else true.
 
 Definition oracle (k : case) : bool :=
   match k with
-  | K be ops ores layout lo g8 pm g32 gbits gs gx =>
-      match orc_ops be empty_map O ops ores with
+  | K be xops ores layout lo g8 pm lo2 g32 gbits gs gx =>
+      match orc_ops be empty_map O (map op_of xops) ores with
       | Bad => false
       | Silent => true
       | Good m =>
           match layout with
           | None => false
           | Some l =>
-              disjoint_from 0 l &&
-              sweep_ok (fun x o => ob_eqb o (exp8 m x)) lo g8 &&
-              sweep_ok (fun x o => ob_eqb o (expp m x)) lo pm &&
-              sweep_ok (ok32 be m) lo g32 &&
-              sweep_ok (fun x o => okget be m x gbits o) lo gs &&
+              disjoint_from 0 (layout_of l) &&
+              sweep_ok (fun x o => String.eqb o (tok 2 (exp8 m x))) lo (tokens 2 g8) &&
+              sweep_ok (fun x o => String.eqb o (tok 1 (expp m x))) lo (tokens 1 pm) &&
+              sweep_ok (ok32 be m) lo2 (tokens 8 g32) &&
+              sweep_ok (fun x o => okget be m x gbits o) lo2 (tokens (wbits gbits) gs) &&
               forallb (fun q => okget be m (fst (fst q)) (snd (fst q)) (snd q)) gx
           end
       end
